@@ -27,15 +27,16 @@ from common import spec, cfgpath
 REQS = {'a': ('GET', '/item/alpha', 't=ta'), 'b': ('GET', '/item/beta', 't=tb'), 'c': ('GET', '/nb/gamma', 't=tg'),
         'boom1': ('GET', '/boom/x1', 't=t1'), 'boom2': ('GET', '/boom/x2', 't=t2'),
         'nf': ('GET', '/nowhere', 't=tn'), 'na': ('POST', '/item/zeta', 't=tz'), 'redir': ('GET', '/branch', 't=tr'),
+        'redir2': ('GET', '/branch', 't=tr2&page=2'),       # the same path as redir, another query: another Location
         # two method-restricted routes on one path: a request neither admits (405), and one for each of them
         'dna': ('DELETE', '/dual/delta', 't=td'), 'dget': ('GET', '/dual/eps', 't=te'), 'dpost': ('POST', '/dual/phi', 't=tp'),
         # two 404s that negotiate different representations
         'nfh': ('GET', '/nowhere/h', 't=th', 'text/html'), 'nfj': ('GET', '/nowhere/j', 't=tj', 'application/json')}
 NAME_OWNER = {'alpha': 'a', 'beta': 'b', 'gamma': 'c', 'x1': 'boom1', 'x2': 'boom2', 'zeta': 'na', 'delta': 'dna', 'eps': 'dget',
               'phi': 'dpost'}
-TOKEN_OWNER = {'ta': 'a', 'tb': 'b', 'tg': 'c', 't1': 'boom1', 't2': 'boom2', 'tn': 'nf', 'tz': 'na', 'tr': 'redir', 'td': 'dna',
+TOKEN_OWNER = {'ta': 'a', 'tb': 'b', 'tg': 'c', 't1': 'boom1', 't2': 'boom2', 'tn': 'nf', 'tz': 'na', 'tr': 'redir', 'tr2': 'redir2', 'td': 'dna',
                'te': 'dget', 'tp': 'dpost', 'th': 'nfh', 'tj': 'nfj'}
-FIXED = ('nf', 'na', 'redir', 'dna', 'nfh', 'nfj')
+FIXED = ('nf', 'na', 'redir', 'redir2', 'dna', 'nfh', 'nfj')
 FAILS = ('boom1', 'boom2')
 # the spec (Threads.tla) names plain requests a/b; 'c' (non-breaking fall-through) behaves like them
 
@@ -200,7 +201,7 @@ def check(run):
     pairs = [(x, y) for x in names for y in names]
     if quick:
         must = [('nfh', 'nfj'), ('nfj', 'nfh'), ('dna', 'dpost'), ('dpost', 'dna'), ('a', 'b'), ('boom1', 'a'), ('c', 'redir'),
-                ('boom1', 'boom2'), ('boom2', 'boom1')]
+                ('boom1', 'boom2'), ('boom2', 'boom1'), ('redir', 'redir2'), ('redir2', 'redir'), ('c', 'nf'), ('nf', 'c')]
         pairs = must + rng.sample([p_ for p_ in pairs if p_ not in must], 8)
     npre = 0
     for x, y in pairs:
